@@ -313,6 +313,14 @@ func (x *Exec) isDropped(name string) bool {
 func (x *Exec) callFunc(s *State, call *ast.CallExpr, f *types.Func, recv *Term) []*Term {
 	name := x.u.funcName(f.Origin())
 	sig := f.Type().(*types.Signature)
+	if sig.TypeParams() != nil && sig.TypeParams().Len() > 0 {
+		// call of a generic function: use the signature instantiated at this call site
+		if isig, ok := x.info.TypeOf(call.Fun).(*types.Signature); ok && isig != nil && isig.TypeParams() == nil {
+			sig = isig
+		} else if isig, ok := x.info.TypeOf(call.Fun).(*types.Signature); ok && isig != nil && isig.Params().Len() == sig.Params().Len() {
+			sig = isig
+		}
+	}
 	// built-in lowerings
 	switch name {
 	case "fmt.Sprintf":
